@@ -3,6 +3,7 @@
 from __future__ import annotations
 
 from abc import abstractmethod
+from dataclasses import replace
 from pathlib import Path
 from typing import TYPE_CHECKING, Any, Dict, List, Literal, Optional
 
@@ -693,6 +694,12 @@ class _SynodicMapDynamicsService(_MapDynamicsServiceBase):
                         "direction": direction}
 
             self.generator.update_config(**updates)
+            if direction is None:
+                # update_config skips None overrides, but here None is a value
+                # ("both directions") and must replace an earlier +1 / -1 request
+                config = self.generator._get_config()
+                if config.direction is not None:
+                    self.generator._set_config(replace(config, direction=None))
             result = self.generator.generate(self.source, options)
             payload = SynodicMapDomainPayload._from_mapping(
                 {
